@@ -86,8 +86,17 @@ type lnk struct {
 	closedAt int64
 	eof      bool
 	ctr      byte
-	tcap     int // C10: bytes sent before a timeout toxic took effect on this link (-1: none in effect)
-	lcap     int // C11: upper bound of what a limit_data toxic lets through on this link (-1: none)
+	tcap     int       // C10: bytes sent before a timeout toxic took effect on this link (-1: none in effect)
+	lcap     int       // C11: upper bound of what a limit_data toxic lets through on this link (-1: none)
+	born     int64     // virtual time the link was started
+	sentAt   []sentSeg // which bytes were handed to the source when
+	latMin   int64     // C08: latency (ms) of a latency toxic (toxicity 1, jitter 0) in effect since the link started, unchanged (-1: none)
+	dueClose int64     // C10: latest virtual time by which a timeout toxic in effect since the link started must have closed it (-1: none)
+}
+
+type sentSeg struct {
+	off int
+	at  int64
 }
 
 type source struct{ l *lnk }
@@ -291,6 +300,47 @@ func (e *Engine) independence(ops []string, res *report.Result) *report.Failure 
 	if f := round("after an update of the toxic on the established connections"); f != nil {
 		return f
 	}
+	// frequency for toxicities that are not whole percents: every update of the toxic makes every
+	// established connection draw again; over 100 updates x n connections the number of affected
+	// connections must be near toxicity x draws (bounds more than six standard deviations wide)
+	for _, tc := range []struct {
+		tox    string
+		lo, hi int
+	}{{"0.005", 4, 60}, {"0.0155", 30, 110}} {
+		applied, draws := 0, 0
+		for k := 0; k < 100; k++ {
+			proxy.Toxics.UpdateToxicJson("t", strings.NewReader(`{"toxicity":`+tc.tox+`,"attributes":{"latency":1000}}`))
+			synctest.Wait()
+			base := make([]int, n)
+			for j, l := range links {
+				l.mu.Lock()
+				base[j] = len(l.all)
+				l.mu.Unlock()
+				l.feed <- []byte{byte(j + 1)}
+			}
+			synctest.Wait()
+			time.Sleep(10 * time.Millisecond)
+			synctest.Wait()
+			for j, l := range links {
+				l.mu.Lock()
+				if len(l.all) == base[j] {
+					applied++
+				}
+				l.mu.Unlock()
+				draws++
+			}
+			time.Sleep(2 * time.Second)
+			synctest.Wait()
+		}
+		res.Count(fmt.Sprintf("freq:toxicity=%s:applied=%d/%d", tc.tox, applied, draws))
+		if applied < tc.lo || applied > tc.hi {
+			return &report.Failure{Kind: "oracle", Property: "C14", Ops: append([]string(nil), ops...), At: 0,
+				Model: fmt.Sprintf("between %d and %d of %d connections affected at toxicity %s", tc.lo, tc.hi, draws, tc.tox),
+				Impl:  fmt.Sprintf("%d of %d", applied, draws),
+				What:  fmt.Sprintf("with toxicity %s the toxic affected %d of %d connections: not with that probability", tc.tox, applied, draws),
+				Sig:   "e3:C14:wrong-frequency"}
+		}
+	}
 	res.Episodes++
 	return nil
 }
@@ -318,6 +368,10 @@ func (e *Engine) episode(ops []string, res *report.Result) *report.Failure {
 	toxDir := map[string]string{}
 	toxType := map[string]string{}
 	allowBlock := false
+	freeRun := false
+	chainOf := map[string][]string{} // direction -> names in chain order (the harness' own view)
+	attrsOf := map[string][3]int64{}
+	lastCfg := map[string]int64{} // direction -> virtual time of the last toxic change
 	// model-free oracles of C10 / C11: which timeout / limit_data toxics are in effect (toxicity 1),
 	// and per link how much may still come out (see capOracle)
 	toxOn := map[string]bool{}  // name -> currently applied with toxicity 1
@@ -358,8 +412,21 @@ func (e *Engine) episode(ops []string, res *report.Result) *report.Failure {
 			continue
 		case "newlink":
 			exec = func() {
-				l := &lnk{name: w[1], dir: w[2], t0: t0, feed: make(chan []byte, 4096), gate: make(chan struct{}), ready: true, ctr: byte(1 + 40*len(links)), tcap: -1, lcap: -1}
+				l := &lnk{name: w[1], dir: w[2], t0: t0, feed: make(chan []byte, 4096), gate: make(chan struct{}), ready: true, ctr: byte(1 + 40*len(links)), tcap: -1, lcap: -1, latMin: -1, dueClose: -1, born: since()}
 				close(l.gate)
+				for _, n := range chainOf[w[2]] {
+					if !toxOn[n] {
+						continue
+					}
+					a := attrsOf[n]
+					if toxType[n] == "latency" && a[1] == 0 && a[0] > l.latMin {
+						l.latMin = a[0]
+					}
+					// (only when it is the direction's only toxic: a slow_close behind it delays the close)
+					if toxType[n] == "timeout" && a[0] > 0 && len(chainOf[w[2]]) == 1 && (l.dueClose < 0 || l.born+a[0]*1000000 < l.dueClose) {
+						l.dueClose = l.born + a[0]*1000000
+					}
+				}
 				for n, on := range toxOn {
 					if !on || toxDir[n] != w[2] {
 						continue
@@ -404,7 +471,11 @@ func (e *Engine) episode(ops []string, res *report.Result) *report.Failure {
 				}
 			}
 			line = fmt.Sprintf("src %s %s", w[1], hx(data))
-			exec = func() { l.feed <- data; l.sent = append(l.sent, data...) }
+			exec = func() {
+				l.sentAt = append(l.sentAt, sentSeg{len(l.sent), since()})
+				l.feed <- data
+				l.sent = append(l.sent, data...)
+			}
 			if l == nil || l.eof {
 				exec = nil
 			}
@@ -443,6 +514,14 @@ func (e *Engine) episode(ops []string, res *report.Result) *report.Failure {
 				}
 				if w[3] == "limit_data" {
 					everLimit[w[1]] = true
+				}
+				chainOf[w[1]] = append(chainOf[w[1]], w[2])
+				attrsOf[w[2]] = [3]int64{a1, a2, a3}
+				lastCfg[w[1]] = since()
+				for _, l := range links {
+					if l.dir == w[1] {
+						l.latMin, l.dueClose = -1, -1
+					}
 				}
 				toxOn[w[2]] = w[7] == "1"
 				if w[7] == "1" && w[3] == "timeout" {
@@ -485,6 +564,13 @@ func (e *Engine) episode(ops []string, res *report.Result) *report.Failure {
 			exec = func() {
 				d := toxDir[w[1]]
 				was := toxOn[w[1]]
+				attrsOf[w[1]] = [3]int64{a1, a2, a3}
+				lastCfg[d] = since()
+				for _, l := range links {
+					if l.dir == d {
+						l.latMin, l.dueClose = -1, -1
+					}
+				}
 				toxOn[w[1]] = w[6] == "1"
 				switch toxType[w[1]] {
 				case "timeout":
@@ -532,6 +618,19 @@ func (e *Engine) episode(ops []string, res *report.Result) *report.Failure {
 				if toxType[w[1]] == "limit_data" {
 					c11Off[toxDir[w[1]]] = true
 				}
+				d := toxDir[w[1]]
+				lastCfg[d] = since()
+				for k, n := range chainOf[d] {
+					if n == w[1] {
+						chainOf[d] = append(append([]string{}, chainOf[d][:k]...), chainOf[d][k+1:]...)
+						break
+					}
+				}
+				for _, l := range links {
+					if l.dir == d {
+						l.latMin, l.dueClose = -1, -1
+					}
+				}
 				delete(toxOn, w[1])
 				apiBusy.Add(1)
 				go func() {
@@ -547,6 +646,13 @@ func (e *Engine) episode(ops []string, res *report.Result) *report.Failure {
 						c11Off[toxDir[n]] = true
 					}
 					delete(toxOn, n)
+				}
+				for d := range chainOf {
+					chainOf[d] = nil
+					lastCfg[d] = since()
+				}
+				for _, l := range links {
+					l.latMin, l.dueClose = -1, -1
 				}
 				apiBusy.Add(1)
 				go func() {
@@ -634,6 +740,12 @@ func (e *Engine) episode(ops []string, res *report.Result) *report.Failure {
 				continue
 			}
 		}
+		if freeRun {
+			exec()
+			synctest.Wait()
+			res.Count("op:" + w[0])
+			continue
+		}
 		model := e.D.Ask(line)
 		if strings.HasPrefix(model, "bad-op") {
 			res.Count("skipped:" + strings.ReplaceAll(model, " ", "_"))
@@ -646,8 +758,16 @@ func (e *Engine) episode(ops []string, res *report.Result) *report.Failure {
 			break
 		}
 		if strings.Contains(mGuide, "race=1") {
-			res.Count("episode:stopped-at-select-race")
-			break
+			if allowBlock {
+				// a directed episode: its operations are valid whatever the `select` picked; go on
+				// without the model (nothing is compared any more), the model-free oracles at the
+				// end still apply to what the implementation does
+				freeRun = true
+				res.Count("episode:free-run-after-select-race")
+			} else {
+				res.Count("episode:stopped-at-select-race")
+				break
+			}
 		}
 		if w[0] == "add" || w[0] == "upd" || w[0] == "del" || w[0] == "reset" {
 			// which internal states the reconfiguration hits (coverage of "at every hand-off")
@@ -661,6 +781,9 @@ func (e *Engine) episode(ops []string, res *report.Result) *report.Failure {
 		synctest.Wait()
 		lastPcs = pcsOf(mGuide)
 		res.Count("op:" + w[0])
+		if freeRun {
+			continue
+		}
 		// observe exactly the links the model still lists
 		mf := strings.Fields(mObs)
 		if len(mf) < 3 {
@@ -790,6 +913,29 @@ func (e *Engine) episode(ops []string, res *report.Result) *report.Failure {
 				result = of
 				break
 			}
+			if of := timingOracle(fail, len(ops)-1, l, since(), failed[l.name], everTimeout[l.dir]); of != nil && (result == nil || e.OracleOnly) {
+				result = of
+				break
+			}
+			// C12: a direction whose only toxic is a slicer (toxicity 1): every piece written after
+			// the last toxic change is at most average_size + size_variation long
+			if ch := chainOf[l.dir]; len(ch) == 1 && toxType[ch[0]] == "slicer" && toxOn[ch[0]] && (result == nil || e.OracleOnly) {
+				a := attrsOf[ch[0]]
+				if bound := a[0] + a[1]; a[0] > 0 && a[1] >= 0 && a[1] < a[0] {
+					l.mu.Lock()
+					for _, wr := range l.hist {
+						if wr.at > lastCfg[l.dir] && wr.at > l.born && int64(len(wr.data)) > bound {
+							result = fail(len(ops)-1, "oracle", "C12", fmt.Sprintf("pieces of at most %d bytes", bound), fmt.Sprintf("link %s: a piece of %d bytes at t=%d (last toxic change at t=%d)", l.name, len(wr.data), wr.at, lastCfg[l.dir]),
+								"with a slicer as the only toxic, a piece larger than average_size + size_variation was forwarded after the toxic's last update", "e3:C12:piece-too-large-after-update")
+							break
+						}
+					}
+					l.mu.Unlock()
+					if result != nil {
+						break
+					}
+				}
+			}
 			if !everTimeout[l.dir] && !everLimit[l.dir] && !failed[l.name] && apiBusy.Load() == 0 {
 				if string(got) != string(l.sent) || !closed {
 					prop := "C02"
@@ -845,6 +991,38 @@ func isSubsequence(sub, full []byte) bool {
 		}
 	}
 	return j == len(sub)
+}
+
+// timingOracle (C08, C10; model-free), for toxics that were in effect when the link started and
+// have not been touched since (no toxic change in the direction at all): a latency toxic
+// (jitter 0) delays every byte by at least its latency; a timeout toxic with T > 0 has closed the
+// connection T ms after the link started, whatever traffic arrived meanwhile.
+func timingOracle(fail func(int, string, string, string, string, string, string) *report.Failure, at int, l *lnk, now int64, sinkFailed, everTimeout bool) *report.Failure {
+	l.mu.Lock()
+	defer l.mu.Unlock()
+	if l.latMin > 0 && !everTimeout {
+		off := 0
+		for _, wr := range l.hist {
+			end := off + len(wr.data)
+			// the latest hand-in time among the bytes of this write
+			var sent int64 = -1
+			for _, sg := range l.sentAt {
+				if sg.off < end {
+					sent = sg.at
+				}
+			}
+			if sent >= 0 && wr.at < sent+l.latMin*1000000 {
+				return fail(at, "oracle", "C08", fmt.Sprintf("no earlier than %d ms after it was sent", l.latMin), fmt.Sprintf("link %s: bytes [%d,%d) sent at t=%d forwarded at t=%d", l.name, off, end, sent, wr.at),
+					"a piece passed a latency toxic (in effect since the connection started) earlier than latency - jitter after the proxy received it", "e3:C08:forwarded-early")
+			}
+			off = end
+		}
+	}
+	if l.dueClose >= 0 && !sinkFailed && now > l.dueClose+1000000 && (!l.closed || l.closedAt > l.dueClose+1000000) {
+		return fail(at, "oracle", "C10", fmt.Sprintf("closed by t=%d", l.dueClose), fmt.Sprintf("link %s: closed=%v at t=%d (now t=%d)", l.name, l.closed, l.closedAt, now),
+			"a connection with a timeout toxic (T > 0, in effect since it started) was not closed T ms after the toxic took effect", "e3:C10:not-closed-in-time")
+	}
+	return nil
 }
 
 // capOracle (C10, C11; model-free): nothing sent while a timeout toxic (toxicity 1) was in effect
